@@ -73,6 +73,10 @@ func main() {
 		runClockSuite(*seed, *n, out, stats)
 	case "accept":
 		runAcceptSuite(*seed, *n, out, stats)
+	case "place":
+		runPlaceSuite(*seed, *n, out, stats)
+	case "wire":
+		runWireSuite(*seed, *n, out, stats)
 	case "forks":
 		runForkSuite(*seed, *n, out, stats)
 	case "faults":
